@@ -707,6 +707,12 @@ func (c *Conn) readRecordOrCCS(expectChangeCipherSpec bool) error {
 			}
 			c.replayWindow = newReplayWindow(windowSize)
 		}
+		// 握手期间尚未轮到 CCS 时到达的 CCS：同一 flight 中排在它之前的数据报丢失或迟到。
+		// 不计入重放窗口直接丢弃，对端超时后重传整个 flight 时再按顺序处理
+		if typ == recordTypeChangeCipherSpec && !expectChangeCipherSpec && !handshakeComplete && c.handBuf.Len() == 0 {
+			c.rawInputBuf = c.rawInputBuf[recordHeaderLen+n:]
+			continue
+		}
 		if !c.replayWindow.check(seqNum) {
 			// 重放检测：静默丢弃
 			c.rawInputBuf = c.rawInputBuf[recordHeaderLen+n:]
